@@ -521,9 +521,18 @@ def _elementwise_inverse(r):
             cur = vals[t.value.id]
             vals[t.value.id] = lambda nz, dc, cond=cond, x=x, cur=cur: x(nz, dc) if cond(nz, dc) else cur(nz, dc)
     mult = [st for st in r.node.body if isinstance(st, ast.AugAssign) and isinstance(st.op, ast.Mult) and isinstance(st.value, ast.Name) and st.value.id in vals]
-    if not mult:
-        return None
-    name = mult[0].value.id
+    if mult:
+        name = mult[0].value.id
+    else:
+        # spectrum * X written as an expression: X is an array filled by masked stores above
+        filled = {st.targets[0].value.id for st in r.node.body if isinstance(st, ast.Assign) and len(st.targets) == 1
+                  and isinstance(st.targets[0], ast.Subscript) and isinstance(st.targets[0].value, ast.Name) and st.targets[0].value.id in vals}
+        prods = [b for st in r.node.body for b in ast.walk(st) if isinstance(b, ast.BinOp) and isinstance(b.op, ast.Mult)
+                 and any(isinstance(o, ast.Name) and o.id in filled for o in (b.left, b.right))]
+        names = {o.id for b in prods for o in (b.left, b.right) if isinstance(o, ast.Name) and o.id in filled}
+        if len(names) != 1:
+            return None
+        name = names.pop()
     tab = {}
     for nz in (True, False):
         for z in (True, False):
@@ -615,7 +624,18 @@ def _transforms(ck: Checker, prog: Program):
     H = sp.Symbol("h_i")
     want_t = {(True, False): 1 / H, (True, True): sp.Integer(0), (False, False): sp.Integer(0), (False, True): sp.Integer(0)}
     mul = [st for st in r.node.body if isinstance(st, ast.AugAssign) and isinstance(st.op, ast.Mult) and isinstance(st.value, ast.Name) and st.value.id == mult_name]
-    h_ok = hsrc == "instrument_transfer_function._h(frq)"
+    # the response is evaluated on the frequencies of the transform that is corrected (by value)
+    from ..resolve import Resolver as _Res, canon as _canon
+    h_ok = False
+    hcalls = [c for c in calls_in(r.node, "_h")]
+    if len(hcalls) == 1 and hcalls[0].args and unparse(hcalls[0].func.value) == r.params[1]:
+        RR = _Res(prog, r, inline=False)
+        got_f = _canon(RR.value(hcalls[0].args[0], hcalls[0]))
+        want_f = [_canon(RR.expect(src)) for src in ("np.fft.rfftfreq(fft_settings.get('n', timeseries.n_samples), d=timeseries.dt_in_seconds)",
+                                                     "np.fft.rfftfreq(fft_settings.get('n', timeseries.n_samples), timeseries.dt_in_seconds)")]
+        h_ok = got_f in want_f
+    mul = mul or [b for st in r.node.body for b in ast.walk(st) if isinstance(b, ast.BinOp) and isinstance(b.op, ast.Mult)
+                  and any(isinstance(o, ast.Name) and o.id == mult_name for o in (b.left, b.right))]
     if all(sp.simplify(tab[k] - want_t[k]) == 0 if tab[k] is not None else False for k in want_t) and mul and h_ok:
         ck.ok("C17.R4", r.qualname, "spectrum multiplied by 1/H; zero-response bins and the DC bin set to 0")
     else:
